@@ -349,7 +349,8 @@ func init() {
 		Modes: func(tier string) []core.Mode {
 			m := []core.Mode{{Name: "plain", Variant: "plain"}, {Name: "checkptr", Variant: "checkptr", CaseDiv: 2}}
 			if tier == "thorough" {
-				m = append(m, core.Mode{Name: "asan", Variant: "asan", CaseDiv: 4, NoRlimit: true}, core.Mode{Name: "gogc1", Variant: "plain", Env: []string{"GOGC=1"}, CaseDiv: 4})
+				m = append(m, core.Mode{Name: "asan", Variant: "asan", CaseDiv: 4, NoRlimit: true}, core.Mode{Name: "gogc1", Variant: "plain", Env: []string{"GOGC=1"}, CaseDiv: 4},
+					core.Mode{Name: "go126", Variant: "go126", CaseDiv: 4})
 			}
 			return m
 		},
